@@ -56,8 +56,14 @@ fn emit_choice(
             && matches!(choice.body.as_slice(), [Node::Divert(_)])
         {
             branch_nodes.extend(tokenize_inline_content(&format!(" {selected_text}"))?);
-            branch_nodes.extend(choice.body.clone());
-            branch_nodes.push(Node::Newline);
+            if choice.body_divert_is_inline {
+                branch_nodes.extend(choice.body.clone());
+                branch_nodes.push(Node::Newline);
+            } else {
+                // the divert is on a line of its own: the chosen text ends its line first
+                branch_nodes.push(Node::Newline);
+                branch_nodes.extend(choice.body.clone());
+            }
             body_already_emitted = true;
         } else if let Some((text, target)) = recovered_inline_divert {
             if !text.is_empty() {
@@ -81,8 +87,8 @@ fn emit_choice(
                     choice.body.as_slice(),
                     [Node::Divert(d)] if d.target == "END" || d.target == "DONE"
                 );
-            let body_is_inline_divert = matches!(choice.body.as_slice(), [Node::Divert(_)])
-                && selected_text.ends_with(char::is_whitespace);
+            let body_is_inline_divert = choice.body_divert_is_inline
+                && matches!(choice.body.first(), Some(Node::Divert(_)));
             if !body_is_terminal_divert && !body_is_inline_divert {
                 branch_nodes.push(Node::Newline);
             }
